@@ -270,6 +270,7 @@ ODD_CONFS = [
     ["acl g0 dst -n 127.45.0.1", "acl g0 dst 127.45.4.4", "http_access allow g0", "http_access deny all"],      # -n persists over later lines
     ["acl g0 dstdomain ptr.example.org", "acl g0 dstdomain -n none", "http_access allow g0", "http_access deny all"],
     ["acl g0 url_regex foo", "http_access allow g0"],
+    ["acl g0 dstdomain ..example.com", "http_access allow g0"],       # two leading dots: outside the scope (C41)
     ["http_access allow manager", "http_access deny all"],
     ["acl g0 src 127.45.10.1", "cache deny g0", "http_access allow g0"],
     # ACL names are compared without regard to case (NamedAcls uses CaseInsensitiveSBufHash/Equal)
